@@ -2416,4 +2416,40 @@ theorem contentOf_eq_with (C : Codecs) (m : Msg) (st : Bool) :
     | none => rfl
     | some ce => rfl
 
+/-! ### round-6 cross-audit: further non-vacuity witnesses (kernel-evaluated on `toy`) -/
+
+-- the `_inv` family: `Inv` holds on a NON-EMPTY cache reached by a history (not only on `none`), and fails on a false entry
+example : (run toy okState [.getContent false true]).1.cache ≠ none ∧
+    Inv toy (run toy okState [.getContent false true]).1.cache ∧ ¬ Inv toy (some ⟨[5], brN, strictB, [9]⟩) := by
+  refine ⟨by decide, inv_preserved toy okState _ (inv_of_empty toy _ rfl), ?_⟩
+  intro h
+  have := (h _ rfl).2
+  revert this
+  decide
+-- get_content_history_independent: two DIFFERENT histories (different cache entries) leave message 0 in the same state
+example : (run toy okState [.enc [9] gzipN strictB, .setContent true (some [3])]).1.msg false =
+      (run toy okState [.getContent false true]).1.msg false ∧
+    (run toy okState [.enc [9] gzipN strictB, .setContent true (some [3])]).1.cache ≠
+      (run toy okState [.getContent false true]).1.cache := by decide
+-- encode_after_encode / unknown_coding_removed / set_set_last_wins: their kind hypotheses on a reachable state
+example : ((run toy okState [.mdecode false true]).1.msg false).raw = some [7, 8] ∧
+    kindOf (effName (some brU)) = .cached ∧ kindOf (effName (some gzipN)) = .cached ∧
+    kindOf (effName (((run toy okState [.setCe false (some fooN)]).1.msg false).ce)) = .unknown ∧
+    OkName (effName (((run toy okState [.getContent false true]).1.msg false).ce)) := by
+  refine ⟨by decide, by decide, by decide, by decide, Or.inr (Or.inl (by decide))⟩
+-- content_length_invariant: no Transfer-Encoding after the assignment, and a tail that disturbs the cache and the trailers
+example : ((step toy okState (.setContent false (some [4]))).1.msg false).te = false ∧
+    (∀ o ∈ [Op.setTr false .nonEmpty, .enc [9, 9] gzipN strictB, .setVer false .h2, .getContent false true,
+            .setContent true (some [9])], o.writes false = false ∨ o.setsMeta false = true) ∧
+    (Op.setCl false (some 1)).writes false = true := by decide
+-- NOT a theorem (the clause "no result ever depends on … earlier" is proved for encode results and stored raw bodies
+-- only up to MEANING): after a decode, `encoding.encode` of the same content returns the earlier input bytes, byte-wise
+-- different from what a process without history returns — see notes/audit6/C31.md
+example : (step toy (run toy init [.dec [2, 7] brN strictB]).1 (.enc [7] brN strictB)).2 = .ok [2, 7] ∧
+    uncachedEnc toy brN strictB [7] = .ok [1, 7] ∧
+    (step toy (run toy init [.dec [2, 7] brN strictB, .dec [3] gzipN strictB, .dec [1, 9] gzipN strictB]).1
+      (.enc [7] brN strictB)).2 = .ok [1, 7] := by decide
+-- own_deflate_fallback / Lib: a body for which only raw inflation succeeds exists in the toy library
+example : toyLib.decompress [0x64] [2, 7] = none ∧ toyLib.inflateRaw [2, 7] = some [7] ∧ ([2, 7] : Bytes) ≠ [] := by decide
+
 end MitmVerif.Props.C31
